@@ -92,7 +92,8 @@ Definition kofb (b : bool) : S := if b then k1 else k0.
 (* ---- constructor arguments ---- *)
 Inductive aattr := AmpS (v : S) | AmpA (a : arr S).                  (* amplitude: 0-d or 2-d *)
 Inductive oattr := OpdS (q : Qc) | OpdA (o : garr Qc).               (* opd: 0-d or 2-d *)
-Inductive mraw := MNone | MS (v : S) | M2 (a : arr S) | M3 (n m : Z) (l : list (arr S)).  (* mask: None, 0-d, 2-d, cube (k, n, m) *)
+Inductive mraw := MNone | MS (v : S) | M2 (a : arr S) | M3 (n m : Z) (l : list (arr S))   (* mask: None, 0-d, 2-d, cube (k, n, m) *)
+              | M4.                                                                  (* an array of rank >= 4 *)
 
 (* ---- the mask as stored: binary ---- *)
 Inductive pmask := PM0 (b : bool) | PM2 (m : garr bool) | PM3 (n m : Z) (l : list (garr bool)).
@@ -113,6 +114,7 @@ Definition init_mask (amp : aattr) (mask : mraw) : pmask :=
   | MS v => PM0 (nz v)
   | M2 a => PM2 (binarise a)
   | M3 n m l => PM3 n m (map binarise l)
+  | M4 => PM0 false            (* never used: _plane_slice refuses the rank *)
   end.
 
 (* _plane_slice(mask) *)
@@ -126,8 +128,36 @@ Definition plane_slice (m : pmask) : result (list pslice) :=
 (* Plane.__init__ / Pupil.__init__ (tilt starts empty; the attribute is public and may be assigned) *)
 Definition plane_init (amp : aattr) (opd : oattr) (mask : mraw) (pix : pixraw) (foc : option focal)
            (tl : list tilt) : result plane :=
-  let m := init_mask amp mask in
-  rbind (plane_slice m) (fun sl => Ok (mkPlane amp opd m sl (pix_broadcast pix) tl foc)).
+  match mask with
+  | M4 => Err ValueError         (* _plane_slice: 'mask has invalid dimensions' *)
+  | _ =>
+    let m := init_mask amp mask in
+    rbind (plane_slice m) (fun sl => Ok (mkPlane amp opd m sl (pix_broadcast pix) tl foc))
+  end.
+
+(* the `amp=` alias of `amplitude=`:  if 'amp' in kwargs: if amplitude != 1: raise TypeError; amplitude = kwargs['amp'].
+   `amplitude != 1` on an array with more than one element has no truth value (numpy raises ValueError) *)
+Definition amp_kw (amplitude : aattr) (alias : option aattr) : result aattr :=
+  match alias with
+  | None => Ok amplitude
+  | Some a' =>
+      match amplitude with
+      | AmpS v => if nz (v - k1)%K then Err TypeError else Ok a'
+      | AmpA A => if nr A * nc A =? 1 then (if nz (get A 0 0 - k1)%K then Err TypeError else Ok a') else Err ValueError
+      end
+  end.
+Definition plane_init_kw (amplitude : aattr) (alias : option aattr) (opd : oattr) (mask : mraw) (pix : pixraw)
+           (foc : option focal) (tl : list tilt) : result plane :=
+  rbind (amp_kw amplitude alias) (fun a => plane_init a opd mask pix foc tl).
+
+(* Plane.global_mask: the mask itself below rank 3, else the sum over the segments (a count) *)
+Definition zofb (b : bool) : Z := if b then 1 else 0.
+Definition global_mask (mk : pmask) (i j : Z) : Z :=
+  match mk with
+  | PM0 b => zofb b
+  | PM2 a => zofb (pget a i j)
+  | PM3 _ _ l => fold_right (fun a acc => zofb (pget a i j) + acc) 0 l
+  end.
 
 (* Plane.size *)
 Definition psize (m : pmask) : nat := match m with PM3 _ _ l => length l | _ => 1%nat end.
@@ -154,6 +184,14 @@ Record pwf := mkPwf {
 Definition pwf_init (lam : Qc) (pix : pixraw) (foc : option Qc) (tl : list tilt) : pwf :=
   mkPwf lam (pix_broadcast pix) (focal_truthy (match foc with Some q => FVal q | None => FNone end)) None
         [mkField (D0 k1) 0 0 tl].
+
+(* Wavefront(..., tilt=[rx, ry]): anything but two entries is refused; Tilt(x=rx, y=ry) stores self.x = ry, self.y = rx *)
+Definition pwf_init_kw (lam : Qc) (pix : pixraw) (foc : option Qc) (tilt_arg : option (list Qc)) : result pwf :=
+  match tilt_arg with
+  | None => Ok (pwf_init lam pix foc [])
+  | Some [rx; ry] => Ok (pwf_init lam pix foc [TiltAng ry rx])
+  | Some _ => Err ValueError
+  end.
 
 (* ---- Plane.multiply: the phasor of segment n ---- *)
 (* mask seen by the loop body: self.mask if mask.ndim < 3 else self.mask[n] *)
@@ -349,6 +387,23 @@ Record plane_ok (P : plane) (n m : Z) : Prop := {
   ok_attr : attr_compat P n m
 }.
 
+(* the attribute array's shape (both arrays must agree), None when amplitude and opd are scalars *)
+Definition attr_shape (P : plane) : option (Z * Z) :=
+  match pl_amp P, pl_opd P with
+  | AmpA A, _ => Some (nr A, nc A)
+  | AmpS _, OpdA o => Some (pnr o, pnc o)
+  | AmpS _, OpdS _ => None
+  end.
+Definition smask_plane (P : plane) (b : bool) (n m : Z) : Prop :=
+  pl_mask P = PM0 b /\ pl_slices P = [SAll] /\ attr_shape P = Some (n, m) /\ 0 < n /\ 0 < m /\
+  (match pl_amp P, pl_opd P with AmpA A, OpdA o => pnr o = nr A /\ pnc o = nc A | _, _ => True end).
+(* amplitude * [mask] * exp(2 pi i opd / lambda) inside the attribute array, nothing outside it *)
+Definition smask_transmission (P : plane) (b : bool) lam n m r c : S :=
+  if inr n (r + n / 2) && inr m (c + m / 2)
+  then (amp_at (pl_amp P) (r + n / 2) (c + m / 2) * kofb b * phase lam (opd_at (pl_opd P) (r + n / 2) (c + m / 2)))%K
+  else k0.
+
+
 (* sum of the fields, 0-d fields (the plane wave of a fresh Wavefront) read as infinite constants *)
 Definition ec_sum (fs : list (field S)) (r c : Z) : S :=
   fold_right (fun f acc => (embed_const f r c + acc)%K) k0 fs.
@@ -395,7 +450,7 @@ Arguments mkPlane {S}. Arguments pl_amp {S}. Arguments pl_opd {S}. Arguments pl_
 Arguments pl_pix {S}. Arguments pl_tilt {S}. Arguments pl_focal {S}.
 Arguments mkPwf {S}. Arguments pw_lam {S}. Arguments pw_pix {S}. Arguments pw_focal {S}. Arguments pw_shape {S}.
 Arguments pw_data {S}. Arguments kofb {S}. Arguments binarise {S}. Arguments init_mask {S}.
-Arguments plane_init {S}. Arguments pwf_init {S}. Arguments amp_data {S}. Arguments opd_data {S}. Arguments phase {S}.
+Arguments plane_init {S}. Arguments amp_kw {S}. Arguments plane_init_kw {S}. Arguments pwf_init_kw {S}. Arguments M4 {S}. Arguments pwf_init {S}. Arguments amp_data {S}. Arguments opd_data {S}. Arguments phase {S}.
 Arguments dmul {S}. Arguments dforce {S}. Arguments phasor {S}. Arguments phasors_from {S}. Arguments plane_phasors {S}.
 Arguments keep {S}. Arguments mul_fields {S}. Arguments plane_multiply {S}. Arguments insert0 {S}. Arguments fold0 {S}.
 Arguments append_tilt {S}. Arguments CPlane {S}. Arguments CTilt {S}. Arguments elem_multiply {S}.
@@ -404,5 +459,6 @@ Arguments pwf_field {S}. Arguments pwf_intensity {S}. Arguments pwf_insert {S}. 
 Arguments cover {S}. Arguments transmission {S}.
 Arguments mask_at : simpl never.
 Arguments fwell {S}. Arguments fsized {S}. Arguments attr_compat {S}. Arguments plane_ok {S}. Arguments ec_sum {S}.
+Arguments attr_shape {S}. Arguments smask_plane {S}. Arguments smask_transmission {S}.
 Arguments plane_scalar {S}. Arguments origin_consts {S}. Arguments partition_of {S}. Arguments chain_multiply {S}.
 Arguments same_optics {S}. Arguments wf_equiv {S}.
